@@ -37,6 +37,31 @@ pub fn judge_case(ls: &LangSet, code: &str, n: u64, d: &str, phrase: &str, cid: 
     judge_roundtrip(api, phrase, &text, &expected, &digits, value, false, false)
 }
 
+/// the same phrase as a time-stamped word stream (ASR output): every word takes 60..600 ms, the silence between two words
+/// is below the pause that makes a token "unrelated to its predecessor", so the phrase must still be one number
+pub fn judge_timed_stream(ls: &LangSet, code: &str, n: u64, d: &str, phrase: &str, durations: &[u64]) -> Option<String> {
+    let api = ls.api(code);
+    let info = spell::info(code);
+    let mut t = 1000u64;
+    let toks: Vec<crate::api::IdTok> = phrase
+        .split(' ')
+        .filter(|w| !w.is_empty())
+        .enumerate()
+        .map(|(i, w)| {
+            let dur = durations[i % durations.len()];
+            let tok = crate::api::IdTok::timed(i as u64, w, t, t + dur);
+            t += dur + 20 + (dur % 60);
+            tok
+        })
+        .collect();
+    let occs = api.find(&toks, 0.0);
+    let digits = format!("{}{}{}", n, info.mark, d);
+    if occs.len() != 1 || occs[0].text != digits || occs[0].start != 0 || occs[0].end != toks.len() {
+        return Some(format!("time-stamped word stream of {:?} (silences of 20..80 ms, pause limit {} ms): occurrences {} , expected one occurrence {:?} over the whole stream", phrase, crate::api::PAUSE_MS, crate::api::show_occs(&occs), digits));
+    }
+    None
+}
+
 /// negative clause 1: a separator word with no number before it stays a word
 pub fn judge_sep_without_int(ls: &LangSet, code: &str, filler: &str, d: &str) -> Option<String> {
     let api = ls.api(code);
@@ -142,6 +167,18 @@ pub fn run(ctx: &Ctx) -> Outcome {
                     rep.eval(hash_bytes(&[code.as_bytes(), phrase.as_bytes(), &[cid as u8]]), true);
                     rep.seen_str("fraction_shapes", &d.bytes().map(|b| if b == b'0' { '0' } else { 'x' }).collect::<String>());
                     rep.count(&format!("context:{}", CONTEXT_NAMES[cid]));
+                    if cid == 0 || rng.chance(1, 4) {
+                        let durations: Vec<u64> = (0..7).map(|_| 60 + rng.below(540)).collect();
+                        rep.eval(hash_bytes(&[code.as_bytes(), b"timed", phrase.as_bytes()]), true);
+                        rep.count("time_stamped_stream_cases");
+                        if let Some(msg) = judge_timed_stream(&ls, code, n, d, &phrase, &durations) {
+                            rep.violation(
+                                &format!("{}:timed-stream", code),
+                                jobj! {"kind" => "timed-stream", "lang" => code, "n" => n, "d" => d.as_str(), "phrase" => phrase.as_str(), "durations" => J::Arr(durations.iter().map(|x| J::from(*x)).collect())},
+                                format!("[{} n={} d={}] {}", code, n, d, msg),
+                            );
+                        }
+                    }
                     if let Some(msg) = judge_case(&ls, code, n, d, &phrase, cid, &f, p, q) {
                         rep.violation(
                             &format!("{}:{}:intdigits{}:frac-shape-{}", code, CONTEXT_NAMES[cid].split('-').next().unwrap_or(""), n.to_string().len().min(4), d.len().min(3)),
@@ -184,7 +221,7 @@ pub fn run(ctx: &Ctx) -> Outcome {
             work(rep, &mut rng, n, i as usize, false);
         }
     });
-    let rule = "cases = (language, integer phrase, separator word, fraction phrase, context); integers from the C01 sampler below 10^9 whose own round-trip holds (conditioning), fractions = every 1- and 2-digit string, every leading/inner/trailing-zero pattern of length 3..6, random ones; plus the two negative clauses (separator with no number before it / nothing usable after it); non-trivial = rewrite and the single occurrence (text, value, flag) compared with n<mark>d";
+    let rule = "cases = (language, integer phrase, separator word, fraction phrase, context); integers from the C01 sampler below 10^9 whose own round-trip holds (conditioning), fractions = every 1- and 2-digit string, every leading/inner/trailing-zero pattern of length 3..6, random ones; plus the same phrase as a time-stamped word stream whose silences stay below the pause limit (one occurrence over the whole stream); plus the two negative clauses (separator with no number before it / nothing usable after it); non-trivial = rewrite and the single occurrence (text, value, flag) compared with n<mark>d";
     finish(
         ctx,
         rep,
@@ -198,6 +235,11 @@ pub fn replay(case: &J) -> Vec<String> {
     let ls = LangSet::new();
     let code = case.str_of("lang");
     match case.str_of("kind").as_str() {
+        "timed-stream" => {
+            let n = case.get("n").and_then(|x| x.as_i64()).unwrap_or(0) as u64;
+            let durations: Vec<u64> = case.get("durations").and_then(|a| a.as_arr()).map(|a| a.iter().map(|x| x.as_i64().unwrap_or(100) as u64).collect()).unwrap_or_else(|| vec![100]);
+            judge_timed_stream(&ls, &code, n, &case.str_of("d"), &case.str_of("phrase"), &durations).into_iter().collect()
+        }
         "sep-without-int" => judge_sep_without_int(&ls, &code, &case.str_of("filler"), &case.str_of("d")).into_iter().collect(),
         "sep-without-frac" => {
             let n = case.get("n").and_then(|x| x.as_i64()).unwrap_or(0) as u64;
